@@ -27,6 +27,13 @@ func init() {
 			"objects referenced by lock-protected fields are not shared with other objects (frame of functions that take the lock)",
 			"trusted thin frames for EpochBitmapAllocator.Allocate/Release/Lookup/GetCurrentEpoch (lease branch is dead under requires sessionMode; to be replaced by verified C01/C05 contracts)",
 		},
+		// the snapshot document of the lease-mode allocator is built with fmt formatting the verifier does not
+		// model, and its restore filter is under contract only as far as the invariants go: bounded stand-in
+		BoundedChecks: []BoundedCheck{
+			{ID: "allocator.epoch_roundtrip", Pkg: "github.com/codelaboratoryltd/bng/pkg/allocator", File: "allocator_epoch_roundtrip.go",
+				Bound: "base networks /16, /22, /24, /28 x prefix lengths {24, 28, 30, 32} x grace periods {1, 2} x 0..3 epoch advances with renewals and one release: 120 allocator states",
+				Claim: "the snapshot restores; same epoch, same Lookup / LookupByIP for every subscriber and address, same Stats, same next allocation"},
+		},
 		Undecided: []string{
 			"round trip of the pool configuration (base_network string -> net.ParseCIDR -> baseIP/baseMask/step/totalPrefixes): relies on ParseCIDR(IPNet.String()) which is not modelled; only prefix_length is tracked",
 			"UnmarshalJSON rebuilds indexToSubscriber in a range-over-map loop; the engine's map iteration model does not track coverage, so 'indexToSubscriber is the inverse of allocated after restore' is by inspection",
